@@ -33,7 +33,7 @@ fn is_acquire(ord: u8) -> bool {
 // BitMap::set(bit) (== Waker::wake) against the automaton
 //   fetch_or(leaf[a], 1<<b) ; if old == 0: fetch_or(summary, 1<<a) ; if old == 0: fetch_or(top, 1<<wake_index) ; if old == 0: callback
 // for EVERY outcome of every operation, every bit, base index and wake index.
-// @verif prop=C11 tier=quick timeout=900 mem=10 unwind=10
+// @verif prop=C11 tier=quick timeout=1200 mem=10 unwind=10
 // @enc sync::waker::BitMap::set sync::waker::Leaf::set sync::waker::Waker::wake (PollWaker callback invocation)
 // @sym bit offset 0..4095, base index (multiple of 4096), wake index 0..63, and the value returned by each atomic operation (any usize)
 // @bound one wake(): at most 3 atomic operations (loop-free)
@@ -89,11 +89,11 @@ fn w_set_equiv() {
 }
 
 // ---- step 1: Waker::drop = lock; push(bit); set(base_index); unlock ----
-// @verif prop=C12,C11 tier=thorough timeout=2400 mem=40 unwind=10
+// @verif prop=C12,C11 tier=quick timeout=1200 mem=16 unwind=10
 // @enc sync::waker::Waker::drop sync::waker::BitMap::set
 // @sym outcome of each atomic operation (any usize); position concrete (bitmap 2, bit 77, slot 2)
 // @bound one drop
-// @assume AtomicUsize shim with scripted (arbitrary) results; std Mutex executed sequentially
+// @assume AtomicUsize shim with scripted (arbitrary) results; sequential Mutex stand-in
 #[kani::proof]
 #[kani::unwind(10)]
 fn w_drop_equiv() {
@@ -120,6 +120,27 @@ fn w_drop_equiv() {
     let n = if t.script[0] != 0 { 1 } else if t.script[1] != 0 { 2 } else if t.script[2] != 0 { 3 } else { 4 };
     assert!(t.n == n, "C12: drop's wake is not the wake() protocol");
     kani::cover!(n == 4, "callback reached");
+}
+
+// Waker::drop while another thread is inside the drop-list critical section: it must wait, never skip the record.
+// @verif prop=C12 tier=quick timeout=1200 mem=16 unwind=10
+// @enc sync::waker::Waker::drop
+// @sym none (the lock is held by a simulated other thread)
+// @bound one drop attempted while the drop-list mutex is held elsewhere
+// @assume sequential Mutex stand-in: lock() on a mutex held by another thread blocks (path ends); try_lock() fails
+#[kani::proof]
+#[kani::unwind(10)]
+fn w_drop_waits_for_lock() {
+    let pw = new_pollwaker();
+    let bm = Arc::new(BitMap::new(0, 0, pw.clone()));
+    let waker = Waker { bit: 9, bitmap: bm.clone() };
+    trace_reset(true);
+    pw.drop_list.set_held_by_other(true);
+    drop(waker);
+    // reaching this point means drop() returned although the lock was never available
+    pw.drop_list.set_held_by_other(false);
+    let recorded = pw.drop_list.lock().unwrap().len() == 1;
+    assert!(recorded, "C12: Waker::drop returned without recording the drop (it must wait for the drop-list lock)");
 }
 
 // ---- step 1b: the collecting thread's program for one bitmap ----
